@@ -31,6 +31,14 @@ pub fn copy_tree(src: &Path, dst: &Path) -> std::io::Result<()> {
             let _ = std::os::unix::fs::symlink(std::fs::read_link(&from)?, &to);
         } else if md.is_dir() {
             copy_tree(&from, &to)?;
+        } else if !md.is_file() {
+            // a named pipe: re-create it (copying would block)
+            use std::os::unix::ffi::OsStrExt;
+            if let Ok(c) = std::ffi::CString::new(to.as_os_str().as_bytes()) {
+                unsafe {
+                    libc::mkfifo(c.as_ptr(), 0o644);
+                }
+            }
         } else {
             std::fs::copy(&from, &to)?;
             set_mtime_ns(&to, md.mtime(), md.mtime_nsec());
@@ -114,7 +122,7 @@ impl Property for C05 {
         }
     }
     fn rule(&self) -> &'static str {
-        "one case = a small generated project (1-4 build targets with inputs, X.output chains) + an optional priming invocation and edits + one main invocation under a seeded schedule. The main invocation is first run to completion (R0: N scheduling decisions, final bytes of every record), then ENUMERATED: zinoma killed (_exit) at every decision index 1..N; SIGINT at every decision index; each script that ran made to exit non-zero / die by signal / fail to spawn; each record replaced by every strict prefix (torn write; quick tier: 32 evenly spaced lengths incl. 0 and len-1), by single-bit flips (quick: ~100 positions; tree unchanged / an own input rewritten / a declared output altered), by every byte zeroed in turn with a declared output altered (quick: one record per case), by garbage and by another target's record; and, when the history has a priming run, the interruptions again (every 5th index) followed by a REVERT of the edited inputs to what the last successful record saw, plus each failing script combined with an I/O error (EIO) on zinoma's own n-th stat / unlink / open (n = 1..14). After each, a fault-free recovery invocation runs. Oracle: a target R0 had to run whose on-disk record is not byte-identical to R0's final record is started again, never skipped; recovery never panics/aborts/errs; a target whose declared input changed is never skipped whatever the record bytes; after a revert, a target whose script had started and not completed in the interrupted run is started again. evaluations = simulated invocations; distinct_nontrivial = distinct (interrupted-run order hash, fault item) pairs in which the fault hit after the first script start"
+        "one case = a small generated project (1-4 build targets with inputs, X.output chains) + an optional priming invocation and edits + one main invocation under a seeded schedule. The main invocation is first run to completion (R0: N scheduling decisions, final bytes of every record), then ENUMERATED: zinoma killed (_exit) at every decision index 1..N; SIGINT at every decision index; each script that ran made to exit non-zero / die by signal / fail to spawn; each record replaced by every strict prefix (torn write; quick tier: 32 evenly spaced lengths incl. 0 and len-1), by single-bit flips (quick: ~100 positions; tree unchanged / an own input rewritten / a declared output altered), by every byte zeroed in turn with a declared output altered (quick: one record per case), by garbage and by another target's record; and, when the history has a priming run, the interruptions again (every 5th index) followed by a REVERT of the edited inputs to what the last successful record saw, plus each failing script combined with an I/O error (EIO) on zinoma's own n-th stat / unlink / open (n = 1..14), with EACCES on the n-th unlink, and with the target's `input:` removed from the project file for the failing run and put back afterwards. After each, a fault-free recovery invocation runs. Oracle: a target R0 had to run whose on-disk record is not byte-identical to R0's final record is started again, never skipped; recovery never panics/aborts/errs; a target whose declared input changed is never skipped whatever the record bytes; after a revert, a target whose script had started and not completed in the interrupted run is started again. evaluations = simulated invocations; distinct_nontrivial = distinct (interrupted-run order hash, fault item) pairs in which the fault hit after the first script start"
     }
     fn assumptions(&self) -> Vec<&'static str> {
         vec![
@@ -296,6 +304,15 @@ impl Property for C05 {
                         items.push(Item::Fail { target: t.clone(), kind: "exit=1".into(), revert: true, io: Some((site.to_string(), occ)) });
                     }
                 }
+                // permission problems instead of I/O errors on the unlink of the old record
+                for occ in 1..=(if thorough { 12 } else { 5 }) {
+                    items.push(Item::Fail { target: t.clone(), kind: "exit=1".into(), revert: true, io: Some(("fs.remove_file!eacces".to_string(), occ)) });
+                }
+                // the target's `input:` removed from the project file for the failing run
+                // (forcing a run while debugging), put back afterwards
+                if sc.target(t.0, &t.1).map(|x| !x.input.is_empty()).unwrap_or(false) {
+                    items.push(Item::Fail { target: t.clone(), kind: "exit=1".into(), revert: true, io: Some(("config.strip-input".to_string(), 0)) });
+                }
             }
         }
         let mut zero_budget = 1usize;
@@ -381,6 +398,7 @@ impl Property for C05 {
                     case.clock = clock0;
                     let mut inv = main_inv.clone();
                     inv.plan = replay_plan.clone();
+                    let mut stripped: Option<usize> = None;
                     match it {
                         Item::Crash(k, _) => inv.plan.crash_at = Some(*k),
                         Item::Signal(k, _) => inv.plan.events.insert(0, PlanEvent { id: "sigk".into(), kind: PlanEventKind::Signal, gate: Gate::Step(*k) }),
@@ -389,12 +407,33 @@ impl Property for C05 {
                             let site = if kind == "eagain" { format!("proc.spawn:{}", id) } else { format!("proc.exit:{}", id) };
                             inv.plan.faults.push(Fault { site, occurrence: 1, kind: kind.clone() });
                             if let Some((s, occ)) = io {
-                                inv.plan.faults.push(Fault { site: s.clone(), occurrence: *occ, kind: "eio".into() });
+                                if s == "config.strip-input" {
+                                    // same project, the target declared without its own inputs
+                                    let mut alt = sc.clone();
+                                    if let Some(tt) = alt.projects[target.0].targets.iter_mut().find(|x| x.name == target.1) {
+                                        tt.input.clear();
+                                        for d in tt.deps.iter_mut() {
+                                            if d.via_output {
+                                                d.via_output = false;
+                                                d.via_dep = true;
+                                            }
+                                        }
+                                    }
+                                    let _ = std::fs::write(case.project_dir(sc, target.0).join("zinoma.yml"), alt.yaml(target.0));
+                                    stripped = Some(target.0);
+                                } else if let Some((site, kind)) = s.split_once('!') {
+                                    inv.plan.faults.push(Fault { site: site.to_string(), occurrence: *occ, kind: kind.to_string() });
+                                } else {
+                                    inv.plan.faults.push(Fault { site: s.clone(), occurrence: *occ, kind: "eio".into() });
+                                }
                             }
                         }
                         _ => {}
                     }
                     let r1 = run_invocation(sc, &mut case, &inv, "r1");
+                    if let Some(p) = stripped {
+                        let _ = std::fs::write(case.project_dir(sc, p).join("zinoma.yml"), sc.yaml(p));
+                    }
                     let hit_after_start = r1.procs.iter().any(|p| p.kind == "build");
                     stats.absorb_run(&inv, &r1, false);
                     if hit_after_start {
